@@ -27,8 +27,10 @@ LEVEL = 'exploration'
 RULE = ('cases = (DEX file, method, perturbation seeds): each method of the shipped DEX files (tests/data/APK/*.dex, the DEX '
         'of hello-world.apk / a2dp.Vol_137.apk in the thorough tier) and of DEX files built from generated int/long programs is '
         'decompiled K times in one process (K=4 quick, 12 thorough) after seeded heap perturbation and after other methods, '
-        'plus once per fresh child process (PYTHONHASHSEED 1, 7 / 1, 7, 4242, 99999) in a different method order; quick tier '
-        'samples methods, biased to long ones. non-trivial = the decompiled method has a loop or at least two local '
+        'plus once per fresh child process (PYTHONHASHSEED 1, 4242 / 1, 7, 4242, 99999; the parent runs with 0) in a different '
+        'method order; quick tier samples methods, biased to long ones. The generated programs use every generator feature, '
+        'among them locals assigned byte/short/char casts of different kinds on different paths (label generated:narrow_join: '
+        'the declared type of such a local is chosen from a set of type descriptors). non-trivial = the decompiled method has a loop or at least two local '
         'variables (only those can print differently); distinct = (file, class, method, descriptor).')
 ASSUMPTIONS = ['detection is probabilistic: it depends on the heap perturbation changing the relative addresses of the '
                'decompiler\'s node/variable objects; equal texts in all runs are weak evidence of determinism',
@@ -36,7 +38,9 @@ ASSUMPTIONS = ['detection is probabilistic: it depends on the heap perturbation 
 EXHAUSTIVE = False
 
 REPO = os.environ.get('VERIF_REPO', '/repo')
-CHILD_SEEDS = {'quick': (1, 7), 'thorough': (1, 7, 4242, 99999)}
+# the parent runs with PYTHONHASHSEED=0 (run.py). 7 orders every set of one-letter type descriptors over B, S, C like 0 does;
+# 1 and 4242 order {B,C}, {B,S,C} resp. {S,B}, {S,C} differently from 0, so the quick tier uses these two
+CHILD_SEEDS = {'quick': (1, 4242), 'thorough': (1, 7, 4242, 99999)}
 K_RUNS = {'quick': 4, 'thorough': 12}
 
 # (TestActivity.apk holds a byte-identical copy of classes.dex: not repeated)
@@ -89,6 +93,16 @@ def load(source):
     return d, dx, methods
 
 
+_GENERATED = {}
+
+
+def generated_programs(seed, n):
+    """-> [(program, compiled)] behind generated_dex(seed, n); class i of the DEX holds program i"""
+    if (seed, n) not in _GENERATED:
+        generated_dex(seed, n)
+    return _GENERATED[(seed, n)]
+
+
 def generated_dex(seed, n):
     """DEX of n generated programs (all generator features on); deterministic in (seed, n)"""
     from hypothesis import given, settings, seed as hseed, HealthCheck, Phase
@@ -104,6 +118,8 @@ def generated_dex(seed, n):
         except progs.Reject:
             pass
     collect()
+    _GENERATED.clear()
+    _GENERATED[(seed, n)] = bag
     return progs.build_dex([p for p, _ in bag], [c for _, c in bag])
 
 
@@ -167,8 +183,9 @@ def first_diff(a, b):
     return 'length %d / %d lines' % (len(la), len(lb))
 
 
-def run_children(ctx, source, keys, tier, base_texts, label, raw=None):
-    """decompile the methods `keys` in fresh processes with other hash seeds; compare with base_texts {key: sha1}"""
+def run_children(ctx, source, keys, tier, base_texts, label, raw=None, tagged=None):
+    """decompile the methods `keys` in fresh processes with other hash seeds; compare with base_texts {key: sha1}.
+    tagged: {key: [labels]} - the child comparisons of these methods are counted per label"""
     import tempfile
     tmp = None
     child_source = list(source)
@@ -178,13 +195,13 @@ def run_children(ctx, source, keys, tier, base_texts, label, raw=None):
             f.write(raw)
         child_source = ['bytes', tmp, 0]
     try:
-        _run_children(ctx, source, child_source, keys, tier, base_texts, label)
+        _run_children(ctx, source, child_source, keys, tier, base_texts, label, tagged or {})
     finally:
         if tmp:
             os.unlink(tmp)
 
 
-def _run_children(ctx, source, child_source, keys, tier, base_texts, label):
+def _run_children(ctx, source, child_source, keys, tier, base_texts, label, tagged):
     for hs in CHILD_SEEDS[tier]:
         env = dict(os.environ)
         env['PYTHONHASHSEED'] = str(hs)
@@ -197,6 +214,8 @@ def _run_children(ctx, source, child_source, keys, tier, base_texts, label):
         ctx.count('child_processes')
         for k in keys:
             ctx.count('child_decompilations')
+            for t in tagged.get(k, ()):
+                ctx.count('child_decompilations:%s:hashseed=%d' % (t, hs))
             if got.get(k) != base_texts[k]:
                 ctx.fail('process:%s' % label, {'source': list(source), 'method': k, 'hashseed': hs, 'seeds': [],
                                                  'expected_sha1': base_texts[k], 'observed_sha1': got.get(k)},
@@ -219,7 +238,7 @@ def child_main():
     print(json.dumps(out))
 
 
-def check_method(ctx, source, dx, methods, idx, seeds, others, label):
+def check_method(ctx, source, dx, methods, idx, seeds, others, label, extra_labels=()):
     """the in-process part: K decompilations of methods[idx] after perturbation / other methods"""
     m = methods[idx]
     key = mkey(m)
@@ -236,7 +255,7 @@ def check_method(ctx, source, dx, methods, idx, seeds, others, label):
             hold = []
     nontrivial = loops >= 1 or nvars >= 2
     ctx.case(nontrivial=nontrivial, key=(source[:2], key), labels=[label, 'loops' if loops else 'no-loop',
-             'vars>=2' if nvars >= 2 else 'vars<2'],
+             'vars>=2' if nvars >= 2 else 'vars<2'] + list(extra_labels),
              sample={'source': list(source), 'method': key, 'runs': len(seeds), 'loops': loops, 'locals': nvars})
     distinct = sorted(set(texts), key=texts.index)
     if len(distinct) > 1:
@@ -289,17 +308,32 @@ def run_shard(ctx, shard):
                      st.lists(st.integers(0, len(methods) - 1), min_size=3, max_size=3))
     base = {}
     todo = list(mine)
+    extra = {}                                     # method index -> labels measuring what the generator produced
+    if kind == 'gen':
+        from vf.gen import progs
+        by_class = {str(m.get_class_name()): i for i, m in enumerate(methods)}
+        for n, (p, _c) in enumerate(generated_programs(shard[1], shard[2])):
+            nj = progs.narrow_joins(p)
+            if nj and progs.class_name(n) in by_class:
+                extra[by_class[progs.class_name(n)]] = ['generated:narrow_join'] + sorted(
+                    {'generated:narrow_join:' + a for a, _ in nj})
+    tagged = {}
 
     def fn(c, v):
         # every selected method once, in order (Hypothesis draws the seeds and the companions)
         idx = todo.pop(0) if todo else v[0]
-        key, h, _nt = check_method(c, source, dx, methods, idx, v[1], v[2], label)
+        key, h, _nt = check_method(c, source, dx, methods, idx, v[1], v[2], label, extra.get(idx, ()))
         base.setdefault(key, h)
+        if idx in extra:
+            tagged[key] = extra[idx][:1]
     hyp_collect(ctx, case, fn, len(mine), salt=part, shrink=False)
     for idx in todo:                              # Hypothesis may stop early on duplicates: finish deterministically
-        key, h, _nt = check_method(ctx, source, dx, methods, idx, [ctx.seed * 31 + idx + j for j in range(k)], [idx + 1, idx + 2, idx + 3], label)
+        key, h, _nt = check_method(ctx, source, dx, methods, idx, [ctx.seed * 31 + idx + j for j in range(k)], [idx + 1, idx + 2, idx + 3], label,
+                                   extra.get(idx, ()))
         base.setdefault(key, h)
-    run_children(ctx, source, sorted(base), ctx.tier, base, label, raw=d._vf_raw)
+        if idx in extra:
+            tagged[key] = extra[idx][:1]
+    run_children(ctx, source, sorted(base), ctx.tier, base, label, raw=d._vf_raw, tagged=tagged)
 
 
 _LOADED = {}
